@@ -120,3 +120,30 @@ Print Assumptions C11_gen_find_index_eq_model.
 Print Assumptions C11_gen_insert_growth_test_eq_model_partial.
 Print Assumptions C11_gen_load_consts.
 (* ================================================ end of the R2G block ================================= *)
+
+(* ======================================================================================================== *)
+(* Round 9 block: every ROUTE by which a string object comes into existence goes through the intern table.
+   gen/StrSites.v (translator/translate_c11.py) lists EVERY construction of an ObjString value in the current
+   yarel/src; the only ones allowed are the constructor itself, the interner and hook H3.  A new site (an error
+   message, a type name, a conversion that allocates its own ObjString) changes the table and breaks the statement. *)
+From Coq Require Import String.
+From YVGen Require StrSites.
+Theorem C11_objstring_construction_sites_all_intern :
+  StrSites.objstring_construction_sites =
+  [("object.rs", "ObjString::new", "struct literal");
+   ("vm.rs", "Vm::new_gc_obj_string", "ObjString::new");
+   ("vm.rs", "verif_intern::InternTable::insert", "ObjString::new")]%string.
+Proof. reflexivity. Qed.
+(* Vm::new_gc_obj_string: ONE table lookup, ONE construction and ONE registration, all directly in the function body
+   (depth 1 = not under any condition), and one early return (the hit, inside the `if let Some`) *)
+Theorem C11_interner_registers_unconditionally :
+  StrSites.intern_fn_get_depths = [1] /\ StrSites.intern_fn_ctor_depths = [1] /\
+  StrSites.intern_fn_insert_depths = [1] /\ StrSites.intern_fn_return_depths = [2].
+Proof. repeat split; reflexivity. Qed.
+(* the derive list of struct ObjString is the known one (Clone is there and unused on ObjString values: see notes/C11.md) *)
+Theorem C11_objstring_derives_known : StrSites.objstring_derives = ["Clone"; "Debug"]%string.
+Proof. reflexivity. Qed.
+Print Assumptions C11_objstring_construction_sites_all_intern.
+Print Assumptions C11_interner_registers_unconditionally.
+Print Assumptions C11_objstring_derives_known.
+(* ================================================ end of the round 9 block ============================== *)
